@@ -15,19 +15,21 @@ def anchors(f):
     if id(f) in _memo:
         return _memo[id(f)]
     A = {}
+    from . import names
+    FIO, ASH = names.of(f, "FramedIo"), names.of(f, "AcceptStopHandle")
     for path, s in f.fns.items():
         if "::test" in path:
             continue
         ins, out, asy = s.get("inputs", []), s.get("output", ""), s.get("is_async")
         if asy and any(t.startswith(PROPS_TY) for t in ins):
             A["ready"] = path
-        elif asy and len(ins) == 1 and ins[0].startswith("&mut") and ins[0].endswith("framed::FramedIo") and "(u8, u8)" in out:
+        elif asy and len(ins) == 1 and ins[0].startswith("&mut") and ins[0].split("::")[-1] == FIO and "(u8, u8)" in out:
             A["greet"] = path
         elif not asy and "Result<(u8, u8)" in out and any(t.endswith("codec::Message") for t in ins):
             A["negotiate"] = path
-        elif asy and any(t.endswith("framed::FramedIo") and not t.startswith("&") for t in ins) and any("dyn MultiPeerBackend" in t for t in ins):
+        elif asy and any(t.split("::")[-1] == FIO and not t.startswith("&") for t in ins) and any("dyn MultiPeerBackend" in t for t in ins):
             A["driver"] = path
-        elif asy and any(t.startswith("impl Fn(") and "FramedIo" in t for t in ins) and "AcceptStopHandle" in out:
+        elif asy and any(t.startswith("impl Fn(") and FIO in t for t in ins) and ASH in out:
             if any("Path" in t for t in ins):
                 A["accept_ipc"] = path
             elif any(t == "u16" for t in ins):
@@ -72,6 +74,7 @@ def accept_callbacks(f):
     `Result<.. FramedIo ..>` - and run the handshake driver on it. Found by what they hold and call: an async block inside the
     closure given to begin_accept, or a named async fn, at any nesting depth."""
     from ..common import type_holds
+    from . import names
     drv = anchors(f).get("driver")
     out = []
     if drv is None:
@@ -87,7 +90,7 @@ def accept_callbacks(f):
                 continue
             for el in pl["p"]:
                 ty = el.get("ty") or ""
-                if el.get("k") == "field" and ty.startswith("std::result::Result<") and type_holds(f, ty, "framed::FramedIo"):
+                if el.get("k") == "field" and ty.startswith("std::result::Result<") and type_holds(f, ty, names.of(f, "FramedIo")):
                     holds = True
         if holds:
             out.append(b)
